@@ -1,6 +1,12 @@
-//! Runs the production code generator (`generate_embedded`) for every flow of `hv_net_flows` and writes one
-//! module per flow to $OUT_DIR/<name>.rs plus $OUT_DIR/all.rs declaring them.
+//! Runs the production code generator (`generate_embedded`) for every (flow shape, payload type) pair of
+//! `hv_net_flows` and writes one module per pair to $OUT_DIR/<name>.rs plus $OUT_DIR/all.rs declaring them.
+//! In every module the sending location is the function `sender`, the receiving one `receiver`, the
+//! network channel is `ch`, the embedded input `input` and the embedded output `output`.
+use hv_net_flows::*;
+use hydro_lang::compile::builder::FlowBuilder;
 use hydro_lang::location::Location;
+
+type Key = String;
 
 fn main() {
     println!("cargo::rerun-if-changed=build.rs");
@@ -11,20 +17,99 @@ fn main() {
         mods.push(name.to_string());
     };
 
-    // --- one block per flow -------------------------------------------------------------------
-    {
-        let mut flow = hydro_lang::compile::builder::FlowBuilder::new();
-        let process = flow.process::<()>();
-        hv_net_flows::double(process.embedded_input("input")).embedded_output("output");
-        emit("double", flow.with_process(&process, "double").generate_embedded("hv_net_flows"));
+    // sender process, receiver process
+    macro_rules! pp {
+        ($name:literal, $f:ident, $($t:ty),+) => {{
+            let mut flow = FlowBuilder::new();
+            let s = flow.process::<Src>();
+            let d = flow.process::<Dst>();
+            $f::<$($t),+>(s.embedded_input("input"), &d).embedded_output("output");
+            emit($name, flow.with_process(&s, "sender").with_process(&d, "receiver").generate_embedded("hv_net_flows"));
+        }};
     }
-    {
-        let mut flow = hydro_lang::compile::builder::FlowBuilder::new();
-        let process = flow.process::<()>();
-        hv_net_flows::running_count(process.embedded_input("input")).embedded_output("output");
-        emit("running_count", flow.with_process(&process, "running_count").generate_embedded("hv_net_flows"));
+    // sender process, receiver cluster
+    macro_rules! pc {
+        ($name:literal, $f:ident, $($t:ty),+) => {{
+            let mut flow = FlowBuilder::new();
+            let s = flow.process::<Src>();
+            let d = flow.cluster::<Dst>();
+            $f::<$($t),+>(s.embedded_input("input"), &d).embedded_output("output");
+            emit($name, flow.with_process(&s, "sender").with_cluster(&d, "receiver").generate_embedded("hv_net_flows"));
+        }};
     }
-    // -------------------------------------------------------------------------------------------
+    // sender cluster, receiver process
+    macro_rules! cp {
+        ($name:literal, $f:ident, $($t:ty),+) => {{
+            let mut flow = FlowBuilder::new();
+            let s = flow.cluster::<Src>();
+            let d = flow.process::<Dst>();
+            $f::<$($t),+>(s.embedded_input("input"), &d).embedded_output("output");
+            emit($name, flow.with_cluster(&s, "sender").with_process(&d, "receiver").generate_embedded("hv_net_flows"));
+        }};
+    }
+    // sender cluster, receiver cluster
+    macro_rules! cc {
+        ($name:literal, $f:ident, $($t:ty),+) => {{
+            let mut flow = FlowBuilder::new();
+            let s = flow.cluster::<Src>();
+            let d = flow.cluster::<Dst>();
+            $f::<$($t),+>(s.embedded_input("input"), &d).embedded_output("output");
+            emit($name, flow.with_cluster(&s, "sender").with_cluster(&d, "receiver").generate_embedded("hv_net_flows"));
+        }};
+    }
+
+    pp!("o2o_int", o2o, PInt);
+    pp!("o2o_str", o2o, PStr);
+    pp!("o2o_optvec", o2o, POptVec);
+    pp!("o2o_shape", o2o, Shape);
+    pp!("o2o_rec", o2o, Rec);
+    pp!("o2o_routed", o2o, Routed);
+    pp!("o2o_raw_int", o2o_raw, PInt);
+    pp!("o2o_raw_rec", o2o_raw, Rec);
+
+    pc!("o2m_demux_int", o2m_demux, PInt);
+    pc!("o2m_demux_str", o2m_demux, PStr);
+    pc!("o2m_demux_optvec", o2m_demux, POptVec);
+    pc!("o2m_demux_shape", o2m_demux, Shape);
+    pc!("o2m_demux_rec", o2m_demux, Rec);
+    pc!("o2m_demux_routed", o2m_demux, Routed);
+    pc!("o2m_demux_raw_int", o2m_demux_raw, PInt);
+    pc!("o2m_demux_raw_rec", o2m_demux_raw, Rec);
+    pc!("o2m_keyed_demux_str_rec", o2m_keyed_demux, Key, Rec);
+
+    pc!("o2m_bcast_int", o2m_bcast, PInt);
+    pc!("o2m_bcast_str", o2m_bcast, PStr);
+    pc!("o2m_bcast_optvec", o2m_bcast, POptVec);
+    pc!("o2m_bcast_shape", o2m_bcast, Shape);
+    pc!("o2m_bcast_rec", o2m_bcast, Rec);
+    pc!("o2m_bcast_routed", o2m_bcast, Routed);
+
+    cp!("m2o_int", m2o, PInt);
+    cp!("m2o_str", m2o, PStr);
+    cp!("m2o_optvec", m2o, POptVec);
+    cp!("m2o_shape", m2o, Shape);
+    cp!("m2o_rec", m2o, Rec);
+    cp!("m2o_routed", m2o, Routed);
+    cp!("m2o_raw_int", m2o_raw, PInt);
+    cp!("m2o_raw_rec", m2o_raw, Rec);
+    cp!("m2o_keyed_str_rec", m2o_keyed, Key, Rec);
+    cp!("m2o_selfid_int", m2o_selfid, PInt);
+
+    cc!("m2m_demux_int", m2m_demux, PInt);
+    cc!("m2m_demux_str", m2m_demux, PStr);
+    cc!("m2m_demux_optvec", m2m_demux, POptVec);
+    cc!("m2m_demux_shape", m2m_demux, Shape);
+    cc!("m2m_demux_rec", m2m_demux, Rec);
+    cc!("m2m_demux_routed", m2m_demux, Routed);
+    cc!("m2m_demux_raw_int", m2m_demux_raw, PInt);
+    cc!("m2m_demux_raw_rec", m2m_demux_raw, Rec);
+
+    cc!("m2m_bcast_int", m2m_bcast, PInt);
+    cc!("m2m_bcast_str", m2m_bcast, PStr);
+    cc!("m2m_bcast_optvec", m2m_bcast, POptVec);
+    cc!("m2m_bcast_shape", m2m_bcast, Shape);
+    cc!("m2m_bcast_rec", m2m_bcast, Rec);
+    cc!("m2m_bcast_routed", m2m_bcast, Routed);
 
     let mut all = String::new();
     for m in &mods {
@@ -34,4 +119,3 @@ fn main() {
     }
     std::fs::write(format!("{out_dir}/all.rs"), all).unwrap();
 }
-
